@@ -173,9 +173,41 @@ def entry_before_foreign_code(rng):
     return None
 
 
+def two_entries(rng):
+    """a function with two entry blocks loses one of them: the other one stays an entry"""
+    import emodify
+
+    for _ in range(30):
+        case = emodify.gen_case(rng, nblocks=rng.randint(3, 6), with_data=rng.random() < 0.3)
+        text = case["text"]
+        funcs = {}
+        for i, d in enumerate(text):
+            if d["kind"] == "code" and d.get("func") is not None:
+                funcs.setdefault(d["func"], []).append(i)
+        big = [f for f, idx in funcs.items() if len(idx) >= 3]
+        if not big:
+            continue
+        idx = funcs[rng.choice(big)]
+        for i in idx:
+            text[i].pop("entry", None)
+        a, b = sorted(rng.sample(idx, 2))
+        text[a]["entry"] = True
+        text[b]["entry"] = True
+        victim = rng.choice([a, b])
+        case["edits"] = [e for e in case["edits"] if e["block"] != victim and e.get("all") is None]
+        case["edits"].append({"op": "delete", "block": victim, "off": 0, "len": emodify.block_size(text[victim])})
+        return case
+    return None
+
+
 def run(ctx):
     LE.run(ctx, "C06", 1500, 40000)
     camp = LE.Campaign(ctx, "C06")
+    for _ in range(ctx.budget(80, 2000)):
+        case = two_entries(ctx.rng)
+        if case is not None:
+            ctx.count("two-entries")
+            camp.add(case)
     for _ in range(ctx.budget(80, 2000)):
         case = entry_before_foreign_code(ctx.rng)
         if case is not None:
